@@ -275,6 +275,8 @@ def gen_request(rng, w, p, names):
     name = w if rng.random() < 0.85 else w.upper()
     if cmd == "incr" or cmd == "decr":
         props = {"name": name, "nb": rng.choice([1, 1, 2, 3]), "waiting": waiting}
+        if rng.random() < p.get("negnb", 0.1):
+            props["nb"] = rng.choice([-1, -2, -5, 0])      # an integer is an integer: accepted (incr -n, decr -n)
         if rng.random() < p.get("badnb", 0.0):
             props["nb"] = 1.5          # an ill-typed property that the daemon accepts (D16)
     elif cmd == "set_np":
